@@ -179,6 +179,9 @@ def make_model_class():
         def __init__(self, model):
             self.model = model
 
+        def __len__(self):
+            return 0            # (a container-like component that is empty right now: a falsy target)
+
         def h(self, **kwargs):
             self.model.h(**kwargs)
 
@@ -242,6 +245,12 @@ def make_model_class():
                 self.gate.wait(LIVENESS_S)
             if seq in self.faults or (len(self.trace) - 1) in self.fault_idx:
                 kind = self.prog.get("fault_kind", "msg")
+                if kind == "bad-command":
+                    # the handler fails because it issues a run command while the run is in progress (refused
+                    # with DSOLError, which the handler does not catch); a refused command changes nothing
+                    kind = "msg"
+                    if sim.is_starting_or_running():
+                        sim.run_up_to_including(sim.simulator_time)
                 if kind == "bad-request":
                     # the handler fails because the library refuses an illegal scheduling request of it (a time of
                     # the wrong type) and the handler does not catch that error
